@@ -55,3 +55,11 @@ Theorem C18_shmem_refused_silent : forall s name a uuid fds q,
   px_shmem s = false -> po_sent (px_op s name a uuid fds q) = [].
 Proof. exact px_refused_silent_shmem. Qed.
 Print Assumptions C18_shmem_refused_silent.
+
+(* every forwarding operation of the Backend proxy (and of the GPU proxy), as regenerated from backend_req.rs and
+   gpu_backend_req.rs on this run: its own request code, the caller's message object passed through untouched, exactly
+   the caller's descriptor, behind the negotiated-feature gate, and nothing else computed on the way *)
+From VV Require Import Gen.GenArms Spec.FwdSpec Proofs.FwdProofs.
+Theorem C18_proxy_forwards_callers_message : fwd_ops_ok = true.
+Proof. exact fwd_ops_ok_true. Qed.
+Print Assumptions C18_proxy_forwards_callers_message.
